@@ -40,8 +40,14 @@ def pairsOfJson (j : Json) : Except String Cfg := do
 def pairsToJson (c : Cfg) : Json := .arr (c.map fun (k, v) => Json.arr #[.str k, pvToJson v]).toArray
 
 def qobjOfJson (j : Json) : Except String QObj := do
-  pure ⟨← getStr j "cls", ← pairsOfJson (← j.getObjVal? "args")⟩
-def qobjToJson (q : QObj) : Json := Json.mkObj [("cls", .str q.cls), ("args", pairsToJson q.args)]
+  let native ← match j.getObjVal? "native" with
+    | .ok (.arr a) => a.toList.mapM fun x => match x with
+        | .str s => pure s
+        | _ => throw s!"bad native entry {x.compress}"
+    | _ => pure []
+  pure ⟨← getStr j "cls", ← pairsOfJson (← j.getObjVal? "args"), native⟩
+def qobjToJson (q : QObj) : Json :=
+  Json.mkObj [("cls", .str q.cls), ("args", pairsToJson q.args), ("native", .arr (q.native.map Json.str).toArray)]
 
 def qvalOfJson (j : Json) : Except String QVal := do
   match j with
@@ -155,6 +161,7 @@ def errStr : Err → String
   | .typeError => "type-error"
   | .unknownObject => "unknown-object"
   | .valueError => "value-error"
+  | .attributeError => "attribute-error"
 
 /-- the driver's environment: real tables, constant clip-bound oracle (never exercised by configs
     that `get_config` produced: a wrapped slot always carries its Clip) -/
@@ -174,13 +181,15 @@ def tablesJson : Json :=
   Json.mkObj [
     ("quantizers", .arr (qSpecs.map fun s => Json.mkObj [
         ("name", .str s.name), ("params", pairsToJson s.params), ("emits", .arr (s.emits.map Json.str).toArray),
-        ("extra", pairsToJson s.extra), ("trainable", Json.num (s.trainable : Int))]).toArray),
+        ("extra", pairsToJson s.extra), ("trainable", Json.num (s.trainable : Int)),
+        ("tolist", .arr (s.tolist.map Json.str).toArray)]).toArray),
     ("layers", .arr (lSpecs.map fun s => Json.mkObj [
         ("name", .str s.name), ("none_is_linear", .bool s.noneIsLinear), ("hook", Json.num (s.hook : Int)),
         ("params", .arr (s.params.map fun p => Json.mkObj [
             ("name", .str p.name), ("kind", kindToJson p.kind), ("default", argToJson p.default),
             ("required", .bool p.required), ("emitted", .bool p.emitted), ("read", .bool p.read)]).toArray)]).toArray),
-    ("custom_objects", .arr (customObjects.map Json.str).toArray)]
+    ("custom_objects", .arr (customObjects.map Json.str).toArray),
+    ("keras_activation_names", .arr (kerasActivationNames.map Json.str).toArray)]
 
 /-- arguments on which two layers of class `spec` differ -/
 def diffArgs (spec : LSpec) (a b : Layer) (onlyRead : Bool) : List String :=
@@ -236,8 +245,10 @@ def handle (j : Json) : Except String Json := do
       pure <| Json.mkObj [("config", pvToJson (.dict cfg)), ("reload", reloadJson spec L),
         ("table_names", .arr (names.map Json.str).toArray),
         ("table_missing", .arr ((names.filter fun c => !customObjects.contains c).map Json.str).toArray),
+        -- does the real `get_config()` raise (numpy method on a plain Python value)?
+        ("get_config_raises", .bool (layerGetConfigRaises E spec L)),
         -- what the three routes do with a one-node model of this layer
-        ("route", match modelFromConfig E (modelGetConfig E [⟨.q L, [0]⟩]) with
+        ("route", match rebuild E [⟨.q L, [0]⟩] with
                   | .ok _ => .str "ok" | .error e => .str (errStr e))]
   | "bidir" =>
     let f ← layerOfJson (← j.getObjVal? "fwd")
@@ -261,8 +272,20 @@ def handle (j : Json) : Except String Json := do
       | .ok _ => Json.mkObj [("ok", .bool false), ("err", .str "shape")]
       | .error e => Json.mkObj [("ok", .bool false), ("err", .str (errStr e))]
     pure <| Json.mkObj [("config", pvToJson (.dict cfg)), ("reload", r),
+      ("get_config_raises", .bool (nodeGetConfigRaises E n)),
       ("table_names", .arr (names.map Json.str).toArray),
       ("table_missing", .arr ((names.filter fun c => !customObjects.contains c).map Json.str).toArray)]
+  | "mask" =>
+    -- the QConv2D constructor's reshape on a given mask literal, and the reshape of its result
+    -- (get_config -> from_config -> constructor)
+    let v ← pvOfJson (← j.getObjVal? "mask")
+    match reshapeMask v with
+    | .error e => pure <| Json.mkObj [("ok", .bool false), ("err", .str (errStr e))]
+    | .ok m =>
+      pure <| Json.mkObj [("ok", .bool true), ("stored", pvToJson m),
+        ("reread", match reshapeMask m with
+                   | .ok m2 => Json.mkObj [("ok", .bool true), ("same", .bool (m.beq m2))]
+                   | .error e => Json.mkObj [("ok", .bool false), ("err", .str (errStr e))])]
   | "from_config" =>
     -- layerFromConfig on a GIVEN config (the real reloaded layer's attributes are compared with it)
     let cls ← getStr j "cls"
